@@ -236,10 +236,14 @@ class ndpoly(numpy.ndarray):  # pylint: disable=invalid-name
             if ufunc not in REDUCE_MAPPINGS:
                 raise FeatureNotSupported(f"ufunc '{ufunc}.reduce' not supported.")
             ufunc = REDUCE_MAPPINGS[ufunc]
+            if getattr(inputs[0], "ndim", 1):
+                kwargs.setdefault("axis", 0)  # the default of `ufunc.reduce`
         elif method == "accumulate":
             if ufunc not in ACCUMULATE_MAPPINGS:
                 raise FeatureNotSupported(f"ufunc '{ufunc}.accumulate' not supported.")
             ufunc = ACCUMULATE_MAPPINGS[ufunc]
+            if getattr(inputs[0], "ndim", 1):
+                kwargs.setdefault("axis", 0)  # the default of `ufunc.accumulate`
         elif method != "__call__":
             raise FeatureNotSupported(f"Method '{method}' not supported.")
         if ufunc not in numpoly.UFUNC_COLLECTION:
